@@ -121,11 +121,13 @@ impl std::fmt::Debug for Feat {
 }
 
 #[derive(Clone, Debug)]
-struct View { seqid: Vec<u8>, source: Vec<u8>, ty: Vec<u8>, start: usize, end: usize, score: Option<f32>, strand: Strand, phase: Option<Phase>, attrs: Vec<(Vec<u8>, Vec<Vec<u8>>)> }
+struct View { seqid: Vec<u8>, source: Vec<u8>, ty: Vec<u8>, start: usize, end: usize, score: Option<f32>, strand: Strand, phase: Option<Phase>, attrs: Vec<(Vec<u8>, Vec<Vec<u8>>)>,
+    /// only in the EXPECTED view: attribute i was written from a Value::String (a one-element Array may read back as a String — the text cannot tell — but a String must not read back as an Array)
+    strs: Vec<bool> }
 
 impl Feat {
     fn plain() -> Feat { Feat { seqid: b"chr1".to_vec(), source: b"src".to_vec(), ty: b"gene".to_vec(), start: 10, end: 20, score: None, strand: Strand::Forward, phase: None, attrs: vec![(b"ID".to_vec(), vec![b"g1".to_vec()], false)] } }
-    fn view(&self) -> View { View { seqid: self.seqid.clone(), source: self.source.clone(), ty: self.ty.clone(), start: self.start, end: self.end, score: self.score, strand: self.strand, phase: self.phase, attrs: self.attrs.iter().map(|(t, v, _)| (t.clone(), v.clone())).collect() } }
+    fn view(&self) -> View { View { seqid: self.seqid.clone(), source: self.source.clone(), ty: self.ty.clone(), start: self.start, end: self.end, score: self.score, strand: self.strand, phase: self.phase, attrs: self.attrs.iter().map(|(t, v, _)| (t.clone(), v.clone())).collect(), strs: self.attrs.iter().map(|(_, v, arr)| !*arr && v.len() == 1).collect() } }
     fn build(&self) -> RecordBuf {
         let attrs: gff::feature::record_buf::Attributes = self.attrs.iter().map(|(t, vs, arr)| (BString::from(t.clone()),
             if *arr || vs.len() != 1 { AttrBuf::Array(vs.iter().map(|v| BString::from(v.clone())).collect()) } else { AttrBuf::String(BString::from(vs[0].clone())) })).collect();
@@ -219,7 +221,7 @@ fn view_dyn(r: &dyn gff::feature::Record) -> Result<View, String> {
     Ok(View { seqid: r.reference_sequence_name().to_vec(), source: r.source().to_vec(), ty: r.ty().to_vec(),
         start: usize::from(r.feature_start().map_err(|e| format!("feature_start() fails: {e}"))?), end: usize::from(r.feature_end().map_err(|e| format!("feature_end() fails: {e}"))?),
         score: r.score().transpose().map_err(|e| format!("score() fails: {e}"))?, strand: r.strand().map_err(|e| format!("strand() fails: {e}"))?,
-        phase: r.phase().transpose().map_err(|e| format!("phase() fails: {e}"))?, attrs })
+        phase: r.phase().transpose().map_err(|e| format!("phase() fails: {e}"))?, attrs, strs: Vec::new() })
 }
 
 /// view through the inherent accessors of the owned record
@@ -233,7 +235,7 @@ fn owned_view(r: &RecordBuf) -> Result<View, String> {
         attrs.push((t.to_vec(), vals));
     }
     if r.attributes().len() != attrs.len() || r.attributes().is_empty() != attrs.is_empty() { return Err("RecordBuf attributes len()/is_empty() inconsistent".into()); }
-    Ok(View { seqid: r.reference_sequence_name().to_vec(), source: r.source().to_vec(), ty: r.ty().to_vec(), start: usize::from(r.start()), end: usize::from(r.end()), score: r.score(), strand: r.strand(), phase: r.phase(), attrs })
+    Ok(View { seqid: r.reference_sequence_name().to_vec(), source: r.source().to_vec(), ty: r.ty().to_vec(), start: usize::from(r.start()), end: usize::from(r.end()), score: r.score(), strand: r.strand(), phase: r.phase(), attrs, strs: Vec::new() })
 }
 
 /// an error string "aspect: detail" from a view extractor becomes a failure keyed by the aspect
@@ -244,6 +246,8 @@ fn report_err(log: &mut Log, fmt: &str, route: &str, err: &str, line: &[u8]) {
 
 /// owned record (from record_bufs / line_bufs / try_from_feature_record): inherent accessors and trait view against the model
 fn check_owned(log: &mut Log, fmt: &str, route: &str, e: &View, rb: &RecordBuf, line: &[u8]) {
+    if e.strs.len() == rb.attributes().len() { for ((t, v), was_string) in rb.attributes().as_ref().iter().zip(e.strs.iter()) { if *was_string && !matches!(v, AttrBuf::String(_)) {
+        log.fail(&format!("{fmt} string value reads back as array"), route, "", || format!("{fmt}: the attribute {} was written from a String value and reads back as an Array ({route}); the written line is {}", show(t), show(line))); } } }
     match owned_view(rb) { Ok(g) => report_diff(log, fmt, route, e, &g, line), Err(m) => report_err(log, fmt, route, &m, line) }
     match view_dyn(rb) { Ok(g) => report_diff(log, fmt, route, e, &g, line), Err(m) => report_err(log, fmt, route, &m, line) }
 }
@@ -307,7 +311,7 @@ fn gff_lazy_view(r: &gff::Record<'_>) -> Result<View, String> {
     Ok(View { seqid: r.reference_sequence_name().to_vec(), source: r.source().to_vec(), ty: r.ty().to_vec(),
         start: usize::from(r.start().map_err(|e| format!("lazy start() fails: {e}"))?), end: usize::from(r.end().map_err(|e| format!("lazy end() fails: {e}"))?),
         score: r.score().transpose().map_err(|e| format!("lazy score() fails: {e}"))?, strand: r.strand().map_err(|e| format!("lazy strand() fails: {e}"))?,
-        phase: r.phase().transpose().map_err(|e| format!("lazy phase() fails: {e}"))?, attrs })
+        phase: r.phase().transpose().map_err(|e| format!("lazy phase() fails: {e}"))?, attrs, strs: Vec::new() })
 }
 
 fn views_equal(a: &View, b: &View) -> bool { diff(a, b).is_empty() }
@@ -478,7 +482,7 @@ fn gtf_lazy_view(r: &gtf::Record<'_>) -> Result<View, String> {
     Ok(View { seqid: r.reference_sequence_name().to_vec(), source: r.source().to_vec(), ty: r.ty().to_vec(),
         start: usize::from(r.start().map_err(|e| format!("lazy start() fails: {e}"))?), end: usize::from(r.end().map_err(|e| format!("lazy end() fails: {e}"))?),
         score: r.score().transpose().map_err(|e| format!("lazy score() fails: {e}"))?, strand: r.strand().map_err(|e| format!("lazy strand() fails: {e}"))?,
-        phase: r.phase().transpose().map_err(|e| format!("lazy phase() fails: {e}"))?, attrs })
+        phase: r.phase().transpose().map_err(|e| format!("lazy phase() fails: {e}"))?, attrs, strs: Vec::new() })
 }
 
 fn check_gtf_line(log: &mut Log, route: &str, line: &gtf::Line, item: &Item, bytes: &[u8], owned_ref: Option<&RecordBuf>) {
